@@ -14,10 +14,12 @@ Module PCN.
 
   Definition rO (r : rr) : nat := match r with ROOR => 1 | _ => 0 end.
   Definition cO (p : scpc) : nat := match p with SCHErr true | SCHClose => 1 | _ => 0 end.
+  Definition cU (p : scpc) : nat := match p with SCUpdClose => 1 | _ => 0 end.
 
   Record NoOor (s : st) : Prop := {
     n_rres : rO (rres s) = 0;
     n_sc : cO (sc (w s)) = 0;
+    n_upd : cU (sc (w s)) <= b2n (dying (ch s));
     n_trig : b2n (trig_closed (ch s)) <= b2n (dying (ch s))
   }.
 
@@ -28,7 +30,8 @@ Module PCN.
     match goal with N : NoOor ?s, H : step _ ?s _ = Some _ |- _ =>
       scbn H; unfold send_err, send_msg, put_token, w_unref, parse_ok, draining in H;
       step_cases H; pair_cases; bool_hyps; pair_cases; bool_hyps;
-      destruct N as [N1 N2 N3]; unf; rew_eqs s; cbn in *;
+      destruct N as [N1 N2 N4 N3]; pose proof (b2n_le1 (trig_closed (ch s))); pose proof (b2n_le1 (dying (ch s)));
+      unf; rew_eqs s; cbn in *;
       try discriminate;
       (constructor; unf; cbn; repeat match goal with X : ?l = true |- context [?l] => rewrite X end; cbn; try lia)
     end.
@@ -37,7 +40,7 @@ Module PCN.
   Proof.
     intros N Ha H. destruct a; try solve [ngo].
     (* AFTake: the excluded outcome *)
-    match goal with o : rr |- _ => destruct o end; cbn in Ha; try discriminate; ngo.
+    all: match goal with o : rr |- _ => destruct o end; cbn in Ha; try discriminate; ngo.
   Qed.
 
   Lemma noor_run c : forall l s s', NoOor s -> forallb noor l = true -> run (step c) s l = Some s' -> NoOor s'.
@@ -45,7 +48,7 @@ Module PCN.
     induction l as [|a l IH]; intros s s' N F H; cbn in *.
     - now injection H as <-.
     - apply andb_true_iff in F as [F1 F2]. destruct (step c s a) as [s1|] eqn:E; [|discriminate].
-      eapply IH; eauto. eapply noor_step; eauto.
+      eapply (IH s1 s'); [eapply noor_step; eauto | exact F2 | exact H].
   Qed.
 
   (* the two automata differ only in when a close may be observed *)
@@ -60,7 +63,7 @@ Module PCN.
   Lemma closed_called c s q : R c s q -> NoOor s ->
     (closed (msgs (ch s)) = true \/ closed (errs (ch s)) = true) -> q_called q = true.
   Proof.
-    intros HR N Hc. destr_R HR. destruct N as [N1 N2 N3]. destr_inv RI. pose_specs s.
+    intros HR N Hc. destr_R HR. destruct N as [N1 N2 N4 N3]. destr_inv RI. pose_specs s.
     assert (b2n (q_called q) = 1); [|destruct (q_called q); cbn in *; auto; lia].
     destruct Hc as [E|E]; rewrite E in *; cbn in *; lia.
   Qed.
